@@ -182,6 +182,43 @@ def r2(ctx) -> None:
     ctx.ob("C20-R2", "get_item_parameter_issues/reports-missing", ok2, pi, pi.node, "an issue for every label the parameters do not have",
            construct="not parameters.has(label)")
     gmi = ctx.fn(DSM, "get_megacomplex_issues")
+    flg = lib.flow(gmi, repo)
+    for issue, pred in (("UniqueMegacomplexIssue", "is_unique"), ("ExclusiveMegacomplexIssue", "is_exclusive")):
+        cs = [c for c in lib.calls(gmi) if norm(c.func) == issue]
+        okc = False
+        trace = []
+        for c in cs:
+            g = next((a for a in lib.ancestors(c, gmi.node) if isinstance(a, ast.If)), None)
+            if g is None:
+                continue
+            t = g.test
+            conj = t.values if isinstance(t, ast.BoolOp) and isinstance(t.op, ast.And) else [t]
+            has_pred = any(isinstance(x, ast.Call) and norm(x.func) == pred and x.args and norm(x.args[0]) == "megacomplex_type" for x in conj)
+            cnt_ok = False
+            for x in conj:
+                if isinstance(x, ast.Compare) and len(x.ops) == 1 and isinstance(x.ops[0], ast.Gt) and isinstance(x.comparators[0], ast.Constant) and x.comparators[0].value == 1:
+                    l = x.left
+                    if pred == "is_exclusive":
+                        cnt_ok = norm(l) == "len(megacomplexes)"
+                    else:
+                        # number of megacomplexes *of that type* in this dataset
+                        if isinstance(l, ast.Call) and norm(l.func) in ("len", "sum") and l.args and isinstance(l.args[0], (ast.ListComp, ast.GeneratorExp)):
+                            comp = l.args[0]
+                            gen = comp.generators[0]
+                            conds = [norm(i).replace(" ", "") for i in gen.ifs] + ([norm(comp.elt).replace(" ", "")] if norm(l.func) == "sum" else [])
+                            var = norm(gen.target)
+                            typed = any(cnd in (f"{var}.__class__ismegacomplex_type", f"type({var})ismegacomplex_type", f"isinstance({var},megacomplex_type)",
+                                                f"{var}.__class__==megacomplex_type", f"type({var})==megacomplex_type") for cnd in conds)
+                            cnt_ok = typed and norm(gen.iter) == "megacomplexes"
+                    trace.append(f"count expression: {norm(l)}")
+            okc = okc or (has_pred and cnt_ok)
+        ctx.ob("C20-R2", f"get_megacomplex_issues/{pred}-semantics", okc, gmi, cs[0] if cs else gmi.node,
+               ("a unique megacomplex type may occur once per dataset: the count is over megacomplexes *of the same type* "
+                "(differently labelled instances of one unique type must be reported)") if pred == "is_unique" else
+               "an exclusive megacomplex must be the dataset's only megacomplex", trace, construct=lib.short(cs[0], 90) if cs else "def")
+    mt = [d for d in flg.defs_of("megacomplex_type") if d.kind == "assign"]
+    ctx.ob("C20-R2", "get_megacomplex_issues/type-of-instance", any(norm(d.value) in ("megacomplex.__class__", "type(megacomplex)") for d in mt), gmi,
+           mt[0].stmt if mt else gmi.node, "the type examined is the class of the megacomplex instance")
     txt = norm(gmi.node)
     ctx.ob("C20-R2", "get_megacomplex_issues/exclusive-and-unique", "is_exclusive(" in txt and "ExclusiveMegacomplexIssue(" in txt
            and "is_unique(" in txt and "UniqueMegacomplexIssue(" in txt, gmi, gmi.node,
@@ -213,6 +250,25 @@ def r3(ctx) -> None:
         reach = cg.reachable_from([f.qualname])
         ctx.ob("C20-R3", f"{target}/type-driven", f"{mi.name}.strip_type_and_structure_from_attribute" in reach, f, f.node,
                "discovery is driven by the resolved attribute types", construct=f"{target} ->* strip_type_and_structure_from_attribute")
+    # validation and filling must discover the *same* attribute set: same arguments at every discovery call site
+    sites = []
+    for fi in repo.functions.values():
+        for c in lib.calls(fi, nested=True):
+            nm = c.func.id if isinstance(c.func, ast.Name) else (c.func.attr if isinstance(c.func, ast.Attribute) else "")
+            if nm == "model_attributes" and fi.rel.startswith("glotaran/model/"):
+                top = fi
+                while top.parent is not None:
+                    top = top.parent
+                wa = kwarg(c, "with_alias") or (c.args[1] if len(c.args) > 1 else None)
+                sites.append((top, c, wa))
+    ctx.sites("C20-R3", "model_attributes call sites", len(sites), 3)
+    for top, c, wa in sites:
+        with_alias = wa is None or (isinstance(wa, ast.Constant) and wa.value is True)
+        if top.name == "_create_attributes_for_item":
+            continue  # creates the model's collections: one per non-aliased attribute (C20-R4)
+        ctx.ob("C20-R3", f"{top.short}/discovers-aliased-attributes-too", with_alias, top, lib.stmt_of(c),
+               "validation and filling must both see aliased model-item attributes (e.g. global_megacomplex -> megacomplex); "
+               "excluding them on one side lets a model validate that cannot be filled")
     it = ctx.fn(ITM, "iterate_names_and_labels")
     fa = ctx.fn(ITM, "fill_item_attributes")
     for f in (it, fa):
